@@ -7,7 +7,7 @@
    found only below the implementation's output.  An output reference to an
    input object therefore shows up as an address < n_in. *)
 From Coq Require Import List NArith ZArith Bool.
-From Dials Require Export Base.Outcome Base.Runes Reflect.Ty Reflect.Heap Copy.DeepCopy Copy.DeepCopySpec Copy.Canon.
+From Dials Require Export Base.Outcome Base.Runes Reflect.Ty Reflect.Heap Copy.DeepCopy Copy.DeepCopySpec Copy.Canon Copy.PtrifyWalk.
 Import ListNotations.
 Open Scope N_scope.
 
@@ -53,6 +53,15 @@ Definition check (c : c03case) : N :=
           let faithful := canon_eqb (canon_of true fuel H root) (canon_of true fuel H r) in
           let fresh := match reach_addrs fuel H r with Done l => all_ge n_in l | _ => false end in
           let input_closed := match reach_addrs fuel H root with Done l => all_lt n_in l | _ => false end in
+          (* Config path: the model of Pointerify's walk over the template terminates
+             within the theorem's bound, and the input is inside its guard *)
+          let prk := compute_prk hin in
+          let P := rank_bound prk in
+          let Dw := Nat.max (heap_depth hin) (depth root) in
+          let walk_ok := (mode =? 0) ||
+                (wf_prankb hin P Dw prk && pwalk_root_ok n_in P Dw prk root &&
+                 match pwalk false (pwalk_fuel n_in P Dw) hin [] root with Done _ => true | _ => false end) in
+          if negb walk_ok then 1 else
           if faithful && fresh && input_closed then
             match m with
             | Done (hm, rm) =>
